@@ -153,10 +153,11 @@ impl WriteAheadLog {
             file.sync_all().await.map_err(map_io_error)?;
             current_size = valid_len;
         }
-        let next_seq = match last_sequence_in_segments(&segments)? {
-            Some(last_seq) => last_seq + 1,
-            None => 1,
-        };
+        // Never hand out a sequence number at or below the flushed mark: entries
+        // up to that mark are skipped on recovery even if their segments are gone.
+        let flushed_seq = load_flushed_seq(&config.wal_dir)?;
+        let last_seq = last_sequence_in_segments(&segments)?.unwrap_or(0);
+        let next_seq = last_seq.max(flushed_seq) + 1;
 
         Ok(Self {
             config,
